@@ -3,21 +3,21 @@ CONSTANTS
  Known <- KnownTk
  NP = 2
  Groups <- TwoGroups
- Apis <- ProduceOnly
- MaxItems = 2
+ Apis <- DataApis
+ MaxItems = 1
  MaxReq = 1
- MaxEnv = 2
- Leasing = TRUE
- AutoSet <- AutoOn
+ MaxEnv = 0
+ Leasing = FALSE
+ AutoSet <- BothAuto
  RichPerms = FALSE
  FixMetaAcl = TRUE
  DevNoAclOn <- NoApis
  DevGateAfterAppend = "none"
- DevLeaseCheckSkipped = TRUE
- DevFetchAclOnRequestName = FALSE
+ DevLeaseCheckSkipped = FALSE
+ DevFetchAclOnRequestName = TRUE
  DevStaleOwnedOnSessionReplace = FALSE
 INIT Init
 NEXT Next
-INVARIANTS C19_AckOnlyIfHeld C19_NoWriteUnlessHeld C19_RefusalCode C19_NotLeaderForOtherOwner
+INVARIANTS C24_NoEffect C24_AuthError C24_NoLeak
 VIEW View
 CHECK_DEADLOCK FALSE
